@@ -342,6 +342,21 @@ static void print_bytes(FILE *f, const unsigned char *p, size_t n) {
         else:
             src.append("      skipped = 2;  // Equals does not compile for this structure")
         src.append('      std::fprintf(f, "{\\"e\\":\\"eq\\",\\"skipped\\":%d,\\"ab\\":%d,\\"ba\\":%d}", skipped, ab, ba);')
+        src.append("    } else if (c == 'Q') {")
+        src.append("      // Equals against every single-bit variant of window 2, on exact-size copies of both windows")
+        src.append("      unsigned char *pa = static_cast<unsigned char *>(std::malloc(wl[1] ? wl[1] : 1)); unsigned char *pb = static_cast<unsigned char *>(std::malloc(wl[2] ? wl[2] : 1));")
+        src.append("      if (wl[1]) std::memcpy(pa, mem + wo[1], wl[1]); if (wl[2]) std::memcpy(pb, mem + wo[2], wl[2]);")
+        src.append("      auto va = %s::Make%sView(%spa, wl[1]);" % (ns, tn, pargs))
+        src.append('      std::fprintf(f, "{\\"e\\":\\"eqs\\",\\"skipped\\":%d,\\"res\\":[", ' + ("0" if with_equals else "2") + ");")
+        if with_equals:
+            src.append("      for (size_t i = 0; i < 8 * wl[2]; ++i) {")
+            src.append("        pb[i / 8] ^= static_cast<unsigned char>(1u << (i % 8));")
+            src.append("        auto vb = %s::Make%sView(%spb, wl[2]); int r = 2;" % (ns, tn, pargs))
+            src.append("        if (va.Ok() && vb.Ok()) { int ab = va.Equals(vb), ba = vb.Equals(va); r = (ab == ba) ? ab : 3; }")
+            src.append('        std::fprintf(f, "%s%d", i ? "," : "", r);')
+            src.append("        pb[i / 8] ^= static_cast<unsigned char>(1u << (i % 8));")
+            src.append("      }")
+        src.append('      std::fprintf(f, "]}"); std::free(pa); std::free(pb);')
         src.append("    } else if (c == 'C') {")
         src.append("      int dst = (int)in.num(); int ok = VIEW(dst).TryToCopyFrom(VIEW(3 - dst));")
         src.append('      std::fprintf(f, "{\\"e\\":\\"cp\\",\\"dst\\":%d,\\"ok\\":%d,\\"after\\":", dst, ok); print_bytes(f, mem, n);')
